@@ -138,7 +138,9 @@ def encoder_crosscheck():
     mod = importlib.util.module_from_spec(spec)
     spec.loader.exec_module(mod)
     total, bad, skipped = mod.run(False)
-    return {"expressions": len(mod.SNIPPETS) - len(skipped), "evaluations": total, "disagreements": len(bad),
+    t2, b2, s2 = mod.run_functions(False)
+    total, bad, skipped = total + t2, bad + b2, skipped + s2
+    return {"expressions": len(mod.SNIPPETS) + len(mod.FUNCS) - len(skipped), "evaluations": total, "disagreements": len(bad),
             "first": [f"{e!r} at {env}: {a} / {b}" for e, env, a, b in bad[:3]]}
 
 
